@@ -12,11 +12,13 @@ import ZarrsModel.Driver.C13
 import ZarrsModel.Driver.C14
 import ZarrsModel.Driver.C15
 import ZarrsModel.Driver.C16
+import ZarrsModel.Driver.C16Conc
 import ZarrsModel.Driver.C17
 import ZarrsModel.Driver.C18
 import ZarrsModel.Driver.C19
 import ZarrsModel.Driver.C20
 import ZarrsModel.Driver.C02Shard
+import ZarrsModel.Driver.C02PackBits
 import ZarrsModel.Driver.C03Chain
 import ZarrsModel.Driver.C02Vlen
 import ZarrsModel.Driver.C05Chain
@@ -43,11 +45,12 @@ structure DState where
 def dispatch (st : DState) (l : Line) : Option (DState × List String × Option String) :=
   match l.verbs.head? with
   | some "c03" =>
-    if l.verbs[1]? == some "chains" || l.verbs[1]? == some "chaindec" then
+    if l.verbs[1]? == some "chains" || l.verbs[1]? == some "chaindec" || l.verbs[1]? == some "chainpd" then
       (DriverC03Chain.handle l).map (fun (a, n) => (st, a, n))
     else (DriverC03.handle l).map (fun a => (st, a, none))
   | some "c02v" => (DriverC02V.handle l).map (fun (a, n) => (st, a, n))
   | some "c02s" => (DriverC02S.handle l).map (fun (a, n) => (st, a, n))
+  | some "c02p" => (DriverC02P.handle l).map (fun (a, n) => (st, a, n))
   | some "c02" => (DriverC01.handle st.c01 l).map (fun (s, a, n) => ({ st with c01 := s }, a, n))
   | some "c04" => (DriverC01.handle st.c01 l).map (fun (s, a, n) => ({ st with c01 := s }, a, n))
   | some "c05" =>
@@ -59,9 +62,15 @@ def dispatch (st : DState) (l : Line) : Option (DState × List String × Option 
   | some "c09" => (DriverC09.handle l).map (fun m => (st, [m], none))
   | some "c10" => (DriverC10.handle l).map (fun m => (st, [m], none))
   | some "c15" => (DriverC15.handle st.c15 l).map (fun (s, a, n) => ({ st with c15 := s }, a, n))
-  | some "c16" => (DriverC16.handle st.c16 l).map (fun (s, a, n) => ({ st with c16 := s }, a, n))
+  | some "c16" =>
+    if l.verbs[1]? == some "conc" then (DriverC16Conc.handle l).map (fun a => (st, a, none)) else
+    -- free-running stress lines (harness/src/stress.rs): every operation behaves as if it ran alone
+    if l.verbs[1]? == some "fsrace" then some (st, ["ok"], none) else
+    (DriverC16.handle st.c16 l).map (fun (s, a, n) => ({ st with c16 := s }, a, n))
   | some "c17" => (DriverC17.handle st.c01 l).map (fun (s, a, n) => ({ st with c01 := s }, a, n))
-  | some "c18" => (DriverC18.handle l).map (fun (a, n) => (st, a, n))
+  | some "c18" =>
+    if l.verbs[1]? == some "stress" then some (st, ["ok"], none) else
+    (DriverC18.handle l).map (fun (a, n) => (st, a, n))
   | some "c20" => (DriverC20.handle st.c01 l).map (fun (s, a, n) => ({ st with c01 := s }, a, n))
   | some "c19" => (DriverC19.handle l).map (fun a => (st, a, none))
   | some "c11" => (DriverC11.handle l).map (fun m => (st, [m], none))
